@@ -421,6 +421,135 @@ fn fail_json(case: u64, descr: &str, files: &[(String, String)], why: &str) -> S
         "compilation returns promptly with generated code or well-located diagnostics; it never panics, crashes or loops")
 }
 
+// ---------------------------------------------------------------------------------------------------------------
+// family `cond` (property C05, bounded, at SOURCE level): `type X = V extends B ? 1 : 2` where V is the literal type
+// of a finite value (consts, closed tuples, exact objects) and B a type over a few named, possibly recursive
+// definitions; the branch the compiler takes is compared with membership of the value in B, computed by recursion
+// on the value. Exact in both directions. This goes through the real frontend (aliases, conditional types, the
+// conversion of named types it builds itself), not through hand-made NamedSchema values as the twin's `refs`.
+#[derive(Clone, Debug, PartialEq)]
+enum CV { Null, Num(i64), Str(&'static str), List(Vec<CV>), Obj(Vec<(&'static str, CV)>) }
+#[derive(Clone, Debug)]
+enum CT { Null, Num, Str, Arr(Box<CT>), Tup(Vec<CT>, Option<Box<CT>>), Obj(Vec<(&'static str, CT)>), Or(Vec<CT>), Ref(&'static str) }
+fn cv_ts(v: &CV) -> String {
+    match v {
+        CV::Null => "null".into(),
+        CV::Num(i) => format!("{}", i),
+        CV::Str(s) => format!("\"{}\"", s),
+        CV::List(xs) => format!("[{}]", xs.iter().map(cv_ts).collect::<Vec<_>>().join(", ")),
+        CV::Obj(kv) => format!("{{ {} }}", kv.iter().map(|(k, x)| format!("{}: {}", k, cv_ts(x))).collect::<Vec<_>>().join(", ")),
+    }
+}
+fn ct_ts(t: &CT) -> String {
+    match t {
+        CT::Null => "null".into(), CT::Num => "number".into(), CT::Str => "string".into(),
+        CT::Arr(i) => format!("({})[]", ct_ts(i)),
+        CT::Tup(p, r) => { let mut parts: Vec<String> = p.iter().map(ct_ts).collect(); if let Some(r) = r { parts.push(format!("...({})[]", ct_ts(r))); } format!("[{}]", parts.join(", ")) }
+        CT::Obj(fs) => format!("{{ {} }}", fs.iter().map(|(k, t)| format!("{}: {}", k, ct_ts(t))).collect::<Vec<_>>().join(", ")),
+        CT::Or(vs) => vs.iter().map(|t| format!("({})", ct_ts(t))).collect::<Vec<_>>().join(" | "),
+        CT::Ref(n) => n.to_string(),
+    }
+}
+fn ct_member(t: &CT, v: &CV, defs: &[(&'static str, CT)]) -> bool {
+    match t {
+        CT::Null => *v == CV::Null,
+        CT::Num => matches!(v, CV::Num(_)),
+        CT::Str => matches!(v, CV::Str(_)),
+        CT::Arr(i) => match v { CV::List(xs) => xs.iter().all(|x| ct_member(i, x, defs)), _ => false },
+        CT::Tup(p, r) => match v {
+            CV::List(xs) => xs.len() >= p.len() && (xs.len() == p.len() || r.is_some())
+                && xs.iter().enumerate().all(|(i, x)| if i < p.len() { ct_member(&p[i], x, defs) } else { ct_member(r.as_ref().unwrap(), x, defs) }),
+            _ => false,
+        },
+        CT::Obj(fs) => match v {
+            CV::Obj(kv) => fs.iter().all(|(k, t)| match kv.iter().find(|(k2, _)| k2 == k) { Some((_, x)) => ct_member(t, x, defs), None => false }),
+            _ => false,
+        },
+        CT::Or(vs) => vs.iter().any(|t| ct_member(t, v, defs)),
+        CT::Ref(n) => ct_member(&defs.iter().find(|(k, _)| k == n).unwrap().1, v, defs),
+    }
+}
+fn cv_values(depth: usize) -> Vec<CV> {
+    let atoms = vec![CV::Null, CV::Num(1), CV::Str("a")];
+    if depth == 0 { return atoms; }
+    let sub = cv_values(depth - 1);
+    let mut out = atoms;
+    out.push(CV::List(vec![]));
+    for a in &sub { out.push(CV::List(vec![a.clone()])); out.push(CV::Obj(vec![("v", CV::Num(1)), ("next", a.clone())])); }
+    let thin: Vec<&CV> = sub.iter().take(10).collect();
+    for a in &thin { for c in &thin { out.push(CV::List(vec![(*a).clone(), (*c).clone()])); } }
+    let mut uniq: Vec<CV> = vec![];
+    for v in out.into_iter() { if !uniq.contains(&v) { uniq.push(v); } }
+    uniq
+}
+fn cond_family(only: Option<u64>) {
+    let b = |t: CT| Box::new(t);
+    let defs: Vec<(&'static str, CT)> = vec![
+        ("T", CT::Tup(vec![CT::Num], Some(b(CT::Ref("T"))))),
+        ("L", CT::Obj(vec![("v", CT::Num), ("next", CT::Or(vec![CT::Null, CT::Ref("L")]))])),
+        ("A", CT::Tup(vec![CT::Num], Some(b(CT::Ref("B"))))),
+        ("B", CT::Tup(vec![CT::Str], Some(b(CT::Ref("A"))))),
+        ("P", CT::Tup(vec![CT::Num, CT::Str], None)),
+        ("Q", CT::Tup(vec![CT::Num], Some(b(CT::Str)))),
+        ("W", CT::Tup(vec![CT::Arr(b(CT::Ref("W")))], None)),
+        ("U", CT::Or(vec![CT::Null, CT::Tup(vec![CT::Num, CT::Ref("U")], None)])),
+        ("R", CT::Arr(b(CT::Ref("R")))),
+    ];
+    let mut targets: Vec<CT> = vec![];
+    for (n, _) in &defs {
+        targets.push(CT::Ref(n));
+        targets.push(CT::Arr(b(CT::Ref(n))));
+        targets.push(CT::Tup(vec![CT::Ref(n)], None));
+        targets.push(CT::Tup(vec![CT::Num], Some(b(CT::Ref(n)))));
+        targets.push(CT::Or(vec![CT::Null, CT::Ref(n)]));
+        targets.push(CT::Obj(vec![("next", CT::Ref(n))]));
+    }
+    targets.push(CT::Or(vec![CT::Ref("T"), CT::Ref("P")]));
+    targets.push(CT::Or(vec![CT::Ref("A"), CT::Ref("B")]));
+    let prelude: String = defs.iter().map(|(n, t)| format!("type {} = {};\n", n, ct_ts(t))).collect();
+    let values = cv_values(2);
+    let (mut cases, mut skipped) = (0u64, 0u64);
+    let mut failed: Vec<u64> = vec![];
+    let mut first: Option<String> = None;
+    std::panic::set_hook(Box::new(|_| {}));
+    for t in &targets { for v in &values {
+        cases += 1;
+        if let Some(c) = only { if c != cases { continue; } }
+        let src = format!("{}type X = {} extends {} ? 1 : 2;\nparse.buildParsers<{{ X: X }}>();\n", prelude, cv_ts(v), ct_ts(t));
+        let spec = ct_member(t, v, &defs);
+        let files = vec![("entry.ts".to_string(), src.clone())];
+        let answer: Result<Option<bool>, String> = match std::panic::catch_unwind(|| {
+            GLOBALS.set(&Globals::new(), || {
+                let f = BffFileName::new("entry.ts".into());
+                let m = match parse_and_bind(&mut Res {}, &f, &files[0].1) { Ok(m) => m, Err(_) => return None };
+                let mut fs = BTreeMap::new();
+                fs.insert(f, m);
+                let mut man = Fm { fs };
+                let p = beff_core::extract(&mut man, EntryPoints { parser_entry_point: BffFileName::new("entry.ts".into()),
+                    settings: BeffUserSettings { string_formats: BTreeSet::new(), number_formats: BTreeSet::new() } });
+                if !p.errors.is_empty() { return None; }
+                let out = p.debug_print();
+                if out.contains("type X = 1;") { Some(true) } else if out.contains("type X = 2;") { Some(false) } else { None }
+            })
+        }) { Ok(a) => Ok(a), Err(_) => Err("the compiler PANICS".to_string()) };
+        let bad = match answer {
+            Ok(None) => { skipped += 1; None }   // a diagnostic (e.g. an unsupported recursive definition): not an answer
+            Ok(Some(r)) => if r != spec { Some(format!("the conditional type takes the branch {}", if r { 1 } else { 2 })) } else { None },
+            Err(e) => Some(e),
+        };
+        if let Some(obs) = bad {
+            failed.push(cases);
+            if std::env::var("TWIN_ALL").is_ok() { eprintln!("FAIL case {} | {} extends {} | {} | expected {}", cases, cv_ts(v), ct_ts(t), obs, if spec { 1 } else { 2 }); }
+            if first.is_none() {
+                first = Some(format!("{{\"case\":{},\"input\":{:?},\"observed\":{:?},\"required\":{:?}}}", cases, src, obs,
+                    format!("branch {} (the value {} a member of the type, by recursion on the value)", if spec { 1 } else { 2 }, if spec { "is" } else { "is not" })));
+            }
+        }
+    } }
+    eprintln!("cond: {} questions answered with a diagnostic instead of a branch (skipped)", skipped);
+    println!("{{\"family\":\"cond\",\"fn\":\"extract\",\"cases\":{},\"failures\":{},\"failed_cases\":{:?},\"first\":{}}}", cases, failed.len(), failed, first.unwrap_or("null".into()));
+}
+
 fn main() {
     let args: Vec<String> = std::env::args().collect();
     let mut depth = 1usize;
@@ -429,6 +558,7 @@ fn main() {
     let mut from = 1u64;
     let mut offset = 0usize;
     let mut is_child = false;
+    let mut cond = false;
     let mut i = 1;
     while i < args.len() {
         match args[i].as_str() {
@@ -438,9 +568,11 @@ fn main() {
             "--from" => { from = args[i + 1].parse().unwrap(); i += 2; }
             "--offset" => { offset = args[i + 1].parse().unwrap(); i += 2; }
             "--child" => { is_child = true; i += 1; }
+            "--cond" => { cond = true; i += 1; }
             _ => i += 1,
         }
     }
+    if cond { cond_family(only); return; }
     if is_child { child(depth, offset, from, only, timeout_s); return; }
     let exe = std::env::current_exe().expect("exe");
     let total = if std::env::var("FRONT_SRC").is_ok() { 1 } else { programs(depth, offset).len() as u64 };
